@@ -52,16 +52,48 @@ def Node.atoms : Node → List Nat
 def Eqn.atoms (e : Eqn) : List Nat :=
   (match e.lhs with | .var v => [v] | .deriv s t _ => [s, t] | .other => []) ++ e.refs.flatMap Node.atoms
 
-/-- first loop of `graph`: the `type` written for each left-hand side; a later equation overrides an earlier one -/
+/-- everything `graph` writes into `Variable.type` because of ONE equation: the role of an assigned left-hand side, or
+    the two roles an ODE gives (state, free variable). Used to state where a role comes from (`tyOf_typeMap_some`). -/
 def typeWrites (e : Eqn) : List (Nat × VType) :=
   match e.lhs with
-  | .deriv s t _ => [(t, .free), (s, .state)]          -- state first, then free: the later write wins
+  | .deriv s t _ => [(t, .free), (s, .state)]
   | .var v => [(v, if e.bareQuantity then .parameter else .computed)]
   | .other => []
 
-/-- association list, most recent write first -/
+/-- first loop of `graph`: the left-hand side of an ordinary equation is PARAMETER or COMPUTED; an ODE writes nothing
+    here (since the `fix:` commit "the roles that come from the ODEs win") -/
+def lhsWrites (e : Eqn) : List (Nat × VType) :=
+  match e.lhs with
+  | .var v => [(v, if e.bareQuantity then .parameter else .computed)]
+  | _ => []
+
+/-- the loop after it: the state variable of every ODE is STATE -/
+def stateWrites (e : Eqn) : List (Nat × VType) :=
+  match e.lhs with
+  | .deriv s _ _ => [(s, .state)]
+  | _ => []
+
+/-- the last of the three: the free variable of every ODE is FREE -/
+def freeWrites (e : Eqn) : List (Nat × VType) :=
+  match e.lhs with
+  | .deriv _ t _ => [(t, .free)]
+  | _ => []
+
+/-- one loop `for equation in self.equations` that writes types: association list, most recent write first -/
+def tmAcc (w : Eqn → List (Nat × VType)) (acc : List (Nat × VType)) (eqs : List Eqn) : List (Nat × VType) :=
+  eqs.foldl (fun tm e => w e ++ tm) acc
+
+/-- the three type-writing loops of `graph` one after the other (most recent write first): all left-hand sides, then
+    all states, then all free variables. A role that comes from an ODE therefore wins over PARAMETER / COMPUTED, and
+    FREE over STATE, wherever the ODE stands in `eqs`: the roles are a function of the SET of equations
+    (`tyOf_typeMap_perm`). -/
 def typeMap (eqs : List Eqn) : List (Nat × VType) :=
-  eqs.foldl (fun tm e => typeWrites e ++ tm) []
+  tmAcc freeWrites (tmAcc stateWrites (tmAcc lhsWrites [] eqs) eqs) eqs
+
+/-- `graph` BEFORE that fix: one loop, `typeWrites` equation by equation, the LAST assignment stays — so a free
+    variable that also has a defining equation was FREE or COMPUTED depending on the order of the equations
+    (`typeMapOld_order_dependent`) -/
+def typeMapOld (eqs : List Eqn) : List (Nat × VType) := tmAcc typeWrites [] eqs
 
 def tyOf (tm : List (Nat × VType)) (v : Nat) : Option VType := tm.lookup v
 
